@@ -81,4 +81,56 @@ def witExtra (s : DefSig) (a : Actual) : List String :=
     (if a.starArgs then [] else reqPk a.pos.length a.names s.po.length s.pk) ++ reqKo a.names s.ko
   else []
 
+/-! ### Syntactic calls: keyword section, CPython's view, expansions
+
+After the positional section Python allows explicit keywords `a=1`, dict literals `**{'a': 1}`
+and `**d` in any relative order.  The definitions below are independent of the model
+(`preprocess` is not used): they say what a concrete syntactic call means to CPython and what
+an expansion of a call with `*xs` / `**d` of unknown length is. `dstarLit ns` stands for a dict
+display whose key list is `ns` (distinct keys; a display repeating a key denotes the dict with
+that key once). -/
+
+/-- Items of the keyword section: `a=1`, `**{...}`, `**d`. -/
+def Arg.isKwItem : Arg → Bool
+  | .kw _ | .dstarLit _ | .dstarUnk => true
+  | _ => false
+
+/-- The keyword names an item supplies (source order). -/
+def Arg.kwNames : Arg → List String
+  | .kw n => [n]
+  | .dstarLit ns => ns
+  | _ => []
+
+/-- The number of positional values an item of known length supplies. -/
+def Arg.npos : Arg → Nat
+  | .pos => 1
+  | .starLit n => n
+  | _ => 0
+
+/-- No `*xs` / `**d` of unknown length. -/
+def Arg.isConcrete : Arg → Bool
+  | .starUnk | .dstarUnk => false
+  | _ => true
+
+/-- What CPython sees of a concrete syntactic call: the number of positional values and the
+keyword names after `*` / `**` unpacking, in source order. -/
+def cCallOf (args : List Arg) : CCall := ⟨(args.map Arg.npos).sum, args.flatMap Arg.kwNames⟩
+
+/-- CPython's verdict on a concrete syntactic call (`true` = binds). A keyword name supplied
+twice makes `cCallOf`'s keyword list non-`Nodup`, which `cpyBind` rejects ("got multiple values
+for keyword argument"). -/
+def cpyCall (s : DefSig) (args : List Arg) : Bool := cpyBind s (cCallOf args)
+
+/-- One item and a concrete value of it: `*xs` becomes a tuple of some length, `**d` a dict
+with some key list, everything else stays. -/
+inductive ArgExp : Arg → Arg → Prop
+  | star (m : Nat) : ArgExp .starUnk (.starLit m)
+  | dstar (ds : List String) : ArgExp .dstarUnk (.dstarLit ds)
+  | same (a : Arg) : a.isConcrete = true → ArgExp a a
+
+/-- `Expands args c`: `c` is a concrete expansion of the syntactic call `args`, item by item. -/
+inductive Expands : List Arg → List Arg → Prop
+  | nil : Expands [] []
+  | cons {a c : Arg} {as cs : List Arg} : ArgExp a c → Expands as cs → Expands (a :: as) (c :: cs)
+
 end Pya
